@@ -18,14 +18,15 @@ import subprocess
 import verif as V
 from fam_lie import GROUPS
 
-REP = {0: 2, 1: 4, 2: 4, 3: 7, 4: 2, 5: 11, 6: 10, 8: 3, 9: 7, 10: 15, 11: 12, 13: 8}
-DOF = {0: 1, 1: 3, 2: 3, 3: 6, 4: 2, 5: 10, 6: 9, 8: 3, 9: 6, 10: 12, 11: 10, 13: 6}
+REP = {0: 2, 1: 4, 2: 4, 3: 7, 4: 2, 5: 11, 6: 10, 8: 3, 9: 7, 10: 15, 11: 12, 13: 8, 18: 13}
+DOF = {0: 1, 1: 3, 2: 3, 3: 6, 4: 2, 5: 10, 6: 9, 8: 3, 9: 6, 10: 12, 11: 10, 13: 6, 18: 12}
 # coefficient layouts: list of (kind, offset, n)
 LAYOUT = {
     0: [("cplx", 0)], 1: [("quat", 0)], 2: [("tr", 0, 2), ("cplx", 2)], 3: [("tr", 0, 3), ("quat", 3)], 4: [("conf", 0)],
     5: [("tr", 0, 7), ("quat", 7)], 6: [("tr", 0, 6), ("quat", 6)], 8: [("tr", 0, 3)], 9: [("quat", 0), ("tr", 4, 3)],
     10: [("tr", 0, 2), ("cplx", 2), ("cplx", 4), ("tr", 6, 2), ("tr", 8, 3), ("quat", 11)],
     11: [("quat", 0), ("tr", 4, 2), ("conf", 6), ("tr", 8, 2), ("cplx", 10)], 13: [("quat", 0), ("quat", 4)],
+    18: [("tr", 0, 9), ("quat", 9)],
 }
 ASSUME = [
     "exact values are carried as rational matrices rounded to 2^-400 per step (error budget far below 1e-13)",
@@ -62,7 +63,7 @@ def rand_coeffs(rng, g, tscale=2.0):
 
 
 ROT_IDX = {0: [0], 1: [0, 1, 2], 2: [2], 3: [3, 4, 5], 4: [1], 5: [7, 8, 9], 6: [6, 7, 8], 8: [], 9: [0, 1, 2],
-           10: [2, 3, 9, 10, 11], 11: [0, 1, 2, 6, 9], 13: [0, 1, 2, 3, 4, 5]}
+           10: [2, 3, 9, 10, 11], 11: [0, 1, 2, 6, 9], 13: [0, 1, 2, 3, 4, 5], 18: [9, 10, 11]}
 
 
 def rand_tangent(rng, g, scale=1.0, tscale=None):
@@ -162,7 +163,7 @@ def check(prop, tier, seed, replay=None):
         jobs.append((rp["g"], rp["prog"], rp.get("every", 1), {"replay_of": replay}))
         oc.known = {"open": [], "fixed": []}
     else:
-        groups = [1, 3, 5, 0, 2, 9] if quick else [0, 1, 2, 3, 4, 5, 6, 9, 10, 11, 13]
+        groups = [1, 3, 5, 0, 2, 9] if quick else [0, 1, 2, 3, 4, 5, 6, 9, 10, 11, 13, 18]
         progs, r = tlc_programs(6 if quick else 60, 14 if quick else 60, seed, workdir)
         if not progs:
             raise V.ToolFailure("MachineGen produced no programs: " + r["out"][-500:])
